@@ -84,6 +84,18 @@ HISTORY = {
     'C19r2-B': ('analysis-error', 'R-cb-linear: a local holding the same dict (equality fact) is the table; rebinding the local is not a reset'),
     'C20r2-A': ('missed', 'R-response-time-writes extended: a connection-event callback must not refresh the table'),
     'C20r2-B': ('analysis-error', 'fallback site found through .get(); a clock default for a missing entry is a violation'),
+    'C01r3-A': ('missed', 'R-commit-gate extended: the verified index is derived from the message, not from the own log end'),
+    'C01r3-B': ('caught', 'R-vote-grant existed'),
+    'C02r3-A': ('missed', 'R-disposition extended: the handler reporting QUEUE_FULL catches nothing but the queue\'s Full'),
+    'C02r3-B': ('caught', 'R-cb-linear existed'),
+    'C03r3-A': ('caught', 'R-vote-grant / R-vote-refusal-justified existed'),
+    'C03r3-B': ('missed', 'new rule R-tally-reset'),
+    'C04r3-A': ('caught', 'R-vote-grant existed'),
+    'C04r3-B': ('missed', 'R-rollback-paired extended: the rolled-back list starts at the truncation index; listed under C04'),
+    'C05r3-A': ('caught', 'R-reply-exhaustive existed'),
+    'C05r3-B': ('caught', 'R-step-down existed'),
+    'C06r3-A': ('missed', 'R-log-owners extended: the head drop goes up to the id reported with SUCCESS'),
+    'C06r3-B': ('caught', 'R-version-in-payload existed'),
 }
 
 
